@@ -992,10 +992,38 @@ def _universe():
     return u
 
 
+def radical_names(db, rule):
+    """IsRadical (the test CompareTemplated / MangleRadicals / BindFreeRadicals use to find the template parameters of a declared type)
+    interpreted on names: every R<digits> the lexers read as a radical is a template parameter, except the one name reserved for the any
+    type. A parameter the test does not recognise is never instantiated: the call is refused, or the parameter leaks into the reported type."""
+    f = next((g for g in db.functions if g.name.endswith('::IsRadical') and g.body >= 0 and g.name.startswith(R)), None)
+    if f is None:
+        rule.broken('anchor vanished: IsRadical')
+        return
+    anyname = 'R0'
+    names = ['R0', 'R1', 'R2', 'R9', 'R10', 'R01', 'R02', 'R00', 'R007', 'R100', 'X1', 'C1', 'D1', 'Z', 'r1']
+    bad = None
+    try:
+        for nm in names:
+            got = bool(Interp(db, max_steps=20000).call(f, [bytearray(nm.encode())]))
+            want = nm[0] == 'R' and nm[1:].isdigit() and nm != anyname
+            if got != want and bad is None:
+                bad = ('%s is %s as a template parameter; the lexers read every R<number> as a radical and only %s is the any type: [α∈%s] {α} is VERIFIED with the argument type %s, and every call of it is refused '
+                       '(or reports a type that still contains %s)' % (nm, 'taken' if got else 'not taken', anyname, nm, nm, nm)) if want else '%s is taken as a template parameter' % nm
+    except OutOfFragment as e:
+        rule.broken('IsRadical outside the evaluable fragment: %s' % e)
+        return
+    if bad:
+        rule.violation('IsRadical', '%s:%d' % (f.file, f.line), bad)
+    else:
+        rule.ok('IsRadical', '%d names: a template parameter iff R<number> other than the reserved %s' % (len(names), anyname), '%s:%d' % (f.file, f.line))
+
+
 def type_algebra(db, rule):
     from engine.evalmini import Obj
     TE = R + 'details::TypeEnv'
     T, on_call = type_hooks(db)
+    radical_names(db, rule)
 
     def pick(name, nparams):
         c = [g for g in db.methods_of(TE) if g.name.endswith('::' + name) and len(g.rec['params']) == nparams and g.has_cfg()
